@@ -489,6 +489,12 @@ func init() {
 	cmds := []string{"cont 1 stepout", "cont 1 resume", "cont 1 stepin", "cont 1 stepover", "status", "describe 1", "extract 1 a g1", "inject 1 a 1", "lockstate", "rmbreak v", "break w:2", "describe 2", "cont 2 resume"}
 	type pc struct{ prop, cmd string }
 	var pcs []pc
+	// commands addressed to thread 2 while it is known to the debugger, running
+	// and in the middle of its program (parked in a harness function): a thread
+	// that was never suspended has a call stack but no interrogation state
+	for _, cmd := range []string{"describe 2", "cont 2 resume", "cont 2 stepout", "extract 2 x g1", "inject 2 x 1"} {
+		pcs = append(pcs, pc{"C16", "parked: " + cmd})
+	}
 	for _, cmd := range cmds {
 		pcs = append(pcs, pc{"C16", cmd})
 		if strings.HasPrefix(cmd, "cont 1 ") {
@@ -499,7 +505,12 @@ func init() {
 	}
 	for _, x := range pcs {
 		cmd := x.cmd
-		register(&Scenario{Prop: x.prop, Name: "concurrent-" + strings.Replace(cmd, " ", "_", -1), Quick: 1, Thor: 2, FreeQuick: 1, FreeThor: 2,
+		parked := strings.HasPrefix(cmd, "parked: ")
+		cmd = strings.TrimPrefix(cmd, "parked: ")
+		if parked {
+			x.cmd = "parked-" + cmd
+		}
+		register(&Scenario{Prop: x.prop, Name: "concurrent-" + strings.Replace(x.cmd, " ", "_", -1), Quick: 1, Thor: 2, FreeQuick: 1, FreeThor: 2,
 			Desc: "thread 1 suspended at a top-level breakpoint, thread 2 running function calls (step-in/out take the debugger's write lock); the command `" + cmd + "` followed by `status` under every schedule within the bound",
 			Make: func() (func(), func(e *vsched.Exec) (string, *vsched.Violation)) {
 				var probs []string
@@ -510,7 +521,23 @@ func init() {
 						probs = append(probs, p)
 						return
 					}
-					ast2, err := parser.ParseWithRuntime("w", "func f(x) {\n  return x\n}\nf(1)\nf(2)", s.en.erp)
+					src2 := "func f(x) {\n  return x\n}\nf(1)\nf(2)"
+					isParked := false
+					var gate vsched.WaitGroup
+					if parked {
+						src2 = "func f(x) {\n  hpark()\n  return x\n}\nx := f(1)\nf(2)"
+						gate.Add(1)
+						first := true
+						s.en.def("hpark", func(tid uint64, args []interface{}) (interface{}, error) {
+							if first {
+								first = false
+								isParked = true
+								gate.Wait()
+							}
+							return nil, nil
+						})
+					}
+					ast2, err := parser.ParseWithRuntime("w", src2, s.en.erp)
 					if err == nil {
 						err = ast2.Runtime.Validate()
 					}
@@ -533,6 +560,14 @@ func init() {
 						ast2.Runtime.Eval(s.en.vs.NewChild("t2"), make(map[string]interface{}), tid2)
 						s.dbg.RecordThreadFinished(tid2)
 					})
+					if parked {
+						for i := 0; !isParked && !done2 && i < 50; i++ {
+							vsched.Quiesce()
+						}
+						if !isParked {
+							probs = append(probs, "setup: thread 2 did not reach its parking place")
+						}
+					}
 					// the command is handled while T2 runs
 					var res interface{}
 					var herr error
@@ -549,13 +584,16 @@ func init() {
 							}
 						}
 						_, herr = s.dbg.HandleInput("status")
-						return ""
+						return p
 					}()
 					if pan != "" {
 						probs = append(probs, "panic: "+pan)
 					}
 					if herr != nil {
 						probs = append(probs, "status fails afterwards: "+herr.Error())
+					}
+					if parked {
+						gate.Done()
 					}
 					for i := 0; !(done2 && s.done); i++ {
 						s.dbg.StopThreads(0)
